@@ -51,6 +51,34 @@ Proof.
     rewrite HC, takeN_app_exact, dropN_app_exact. cbn [length] in Hf. rewrite IH by (assumption || lia). reflexivity.
 Qed.
 
+(* a receiver with a smaller MTU sees a prefix of the chunk sequence: it extracts nothing but chunks that are there *)
+Lemma mparse_truncated_Forall (P : msg -> Prop) ms : forall fuel k,
+  Forall (fun m => lenN m < two32) ms -> Forall P ms ->
+  Forall P (mparse fuel (takeN k (enc_chunks ms))).
+Proof.
+  induction ms as [|m ms IH]; intros fuel k Hs HP.
+  - unfold takeN. cbn [enc_chunks map concat]. rewrite firstn_nil. destruct fuel; constructor.
+  - inversion Hs as [|? ? Hm Hms]; subst. inversion HP as [|? ? Pm Pms]; subst.
+    destruct fuel as [|fuel]; [constructor|].
+    rewrite enc_chunks_cons.
+    destruct (N.le_gt_cases (lenN (enc_chunk m)) k) as [Hk|Hk].
+    + rewrite takeN_app_ge by exact Hk. cbn [mparse].
+      assert (HL : (CHS <=? lenN (enc_chunk m ++ takeN (k - lenN (enc_chunk m)) (enc_chunks ms))) = true).
+      { apply N.leb_le. rewrite lenN_app, lenN_enc_chunk. lia. }
+      rewrite HL. unfold enc_chunk. rewrite <- app_assoc, rd32_le32, u32_small by exact Hm.
+      assert (HC : (lenN m <=? lenN (m ++ takeN (k - lenN (le32 (lenN m) ++ m)) (enc_chunks ms))) = true).
+      { apply N.leb_le. rewrite lenN_app. lia. }
+      rewrite HC, takeN_app_exact, dropN_app_exact. constructor; [exact Pm|]. now apply IH.
+    + rewrite takeN_app_le by lia. rewrite lenN_enc_chunk in Hk. cbn [mparse].
+      destruct (CHS <=? lenN (takeN k (enc_chunk m))) eqn:H4; [|constructor].
+      apply N.leb_le in H4. rewrite lenN_takeN, lenN_enc_chunk in H4.
+      unfold enc_chunk. rewrite takeN_app_ge by (rewrite lenN_le32; rewrite CHS_val in H4; lia).
+      rewrite rd32_le32, u32_small by exact Hm.
+      assert (HC : (lenN m <=? lenN (takeN (k - lenN (le32 (lenN m))) m)) = false).
+      { apply N.leb_gt. rewrite lenN_takeN, lenN_le32. rewrite CHS_val in *. lia. }
+      rewrite HC. constructor.
+Qed.
+
 (* ------------------------------------------------------------------ the header word *)
 
 Lemma land_low_shift pid lvl : pid < 2 ^ 24 -> N.land pid (N.shiftl lvl 24) = 0.
@@ -191,7 +219,8 @@ Lemma mrecv_wire c rc a pid w0 ms :
   let '(w, pkt') := mwire deflate c pid (shape c w0 ms) in
   mrecv_packet inflate rc a w =
     (if (mc_magic c =? rc_magic rc) && sex_ok rc (mc_sex c) then map (pair a) ms else [])
-  /\ pkt_is c pkt' ms /\ lenN pkt' = lenN (shape c w0 ms) /\ lenN w <= lenN (shape c w0 ms).
+  /\ pkt_is c pkt' ms /\ lenN pkt' = lenN (shape c w0 ms) /\ lenN w <= lenN (shape c w0 ms)
+  /\ (mc_level c = 0 -> w = shape c w0 ms).
 Proof.
   intros (Hmg & Hsx & Hlvl & Hmtu) Hpid Hw0 Hw0l Hms Hmisc Hlen.
   rewrite lenN_shape in Hlen.
@@ -218,15 +247,16 @@ Proof.
         (if (mc_magic c =? rc_magic rc) && sex_ok rc (mc_sex c) then map (pair a) ms else [])
       /\ pkt_is c ((le32 (mc_magic c) ++ le32 (mc_sex c)) ++ le32 pid ++ enc_chunks ms) ms
       /\ lenN ((le32 (mc_magic c) ++ le32 (mc_sex c)) ++ le32 pid ++ enc_chunks ms) = lenN (shape c w0 ms)
-      /\ lenN ((le32 (mc_magic c) ++ le32 (mc_sex c)) ++ le32 pid ++ enc_chunks ms) <= lenN (shape c w0 ms)).
+      /\ lenN ((le32 (mc_magic c) ++ le32 (mc_sex c)) ++ le32 pid ++ enc_chunks ms) <= lenN (shape c w0 ms)
+      /\ (mc_level c = 0 -> (le32 (mc_magic c) ++ le32 (mc_sex c)) ++ le32 pid ++ enc_chunks ms = shape c w0 ms)).
     { rewrite <- app_assoc. split; [exact Hpatched|]. split.
       - right. exists pid. split; [unfold two32; change (2 ^ 24) with 16777216 in Hpid; lia|]. split; [lia|reflexivity].
-      - unfold shape. rewrite !lenN_app, !lenN_le32. lia. }
+      - unfold shape. rewrite !lenN_app, !lenN_le32. split; [lia|]. split; [lia|]. intros E0. lia. }
     destruct (deflate (mc_level c) (enc_chunks ms)) as [d|] eqn:Hd; [|exact Hpatch_all].
     destruct (PHS + lenN d <? lenN (shape c w0 ms)) eqn:Hsm; [|exact Hpatch_all].
     apply N.ltb_lt in Hsm. rewrite lenN_shape in Hsm.
     destruct (cl_word_spec pid (mc_level c) Hpid Hlvl) as [Hw Hcl].
-    split; [|split; [|split]].
+    split; [|split; [|split; [|split]]]; [| | | |intros E0; lia].
     + rewrite <- app_assoc. rewrite mrecv_header; try assumption; [|lia].
       destruct ((mc_magic c =? rc_magic rc) && sex_ok rc (mc_sex c)); [|reflexivity].
       cbv zeta. rewrite Hcl.
@@ -236,7 +266,7 @@ Proof.
     + reflexivity.
     + rewrite !lenN_app, !lenN_le32, lenN_shape. rewrite PHS_val in *. lia.
   - apply N.ltb_ge in Hl. assert (Hl0 : mc_level c = 0) by lia.
-    split; [|split; [|split]].
+    split; [|split; [|split; [|split]]]; [| | | |reflexivity].
     + unfold shape. rewrite mrecv_header; try assumption.
       destruct ((mc_magic c =? rc_magic rc) && sex_ok rc (mc_sex c)); [|reflexivity].
       cbv zeta. rewrite plain_word_spec by (now apply Hw0l). cbn [N.ltb N.compare]. now rewrite Hparse.
@@ -264,7 +294,8 @@ Fixpoint no_msetid (ops : list mop) : Prop :=
 (* every written packet w_i is, to a receiver at address a, exactly the chunk list mss_i *)
 Definition wires_ok (c : mcfg) (rc : rcfg) (a : addr) (pkts : list packet) (mss : list (list msg)) : Prop :=
   Forall2 (fun w ms => mrecv_packet inflate rc a w =
-                       (if (mc_magic c =? rc_magic rc) && sex_ok rc (mc_sex c) then map (pair a) ms else []))
+                       (if (mc_magic c =? rc_magic rc) && sex_ok rc (mc_sex c) then map (pair a) ms else [])
+                       /\ (mc_level c = 0 -> exists w0, w0 < 2 ^ 24 /\ w = shape c w0 ms))
           pkts mss.
 
 (* ghost view: [all] = every Message added so far; [mss] = the chunk lists of the packets written so far;
@@ -299,7 +330,7 @@ Proof.
       destruct Hpk1 as [[-> _]|(w0 & Hw0 & Hlv & ->)]; [cbn in Hpos; lia|].
       pose proof (mrecv_wire c rc a (m_pid st) w0 (pend ++ ms1) Hc Hpid Hw0 Hlv Hsmall Hmisc ltac:(lia)) as Hw.
       destruct (mwire deflate c (m_pid st) (shape c w0 (pend ++ ms1))) as [w pkt'] eqn:Ew.
-      destruct Hw as (Hrecv & Hpk' & Hlen' & Hwlen).
+      destruct Hw as (Hrecv & Hpk' & Hlen' & Hwlen & Hplain).
       destruct (bud =? 0).
       * intros E. injection E as <- <-. exists []. rewrite app_nil_r. split; [constructor|].
         split; [exact Hpid|]. cbn [m_pid m_q m_pkt]. split; [lia|]. exists (pend ++ ms1), (d ++ d1). auto.
@@ -311,7 +342,7 @@ Proof.
           exists [], (d ++ d1). split; [left; auto|]. split; [exact Hd1|].
           rewrite concat_app. cbn [concat]. rewrite !app_nil_r. exact Hf2. }
         destruct (IH _ _ _ _ _ _ _ Hc Hmisc Hmtu Hall Hinv1 El) as (mss' & Hw' & Hinv').
-        exists ((pend ++ ms1) :: mss'). split; [constructor; assumption|].
+        exists ((pend ++ ms1) :: mss'). split; [constructor; [split; [exact Hrecv|intros E0; exists w0; split; [now apply Hlv|now apply Hplain]]|exact Hw']|].
         rewrite <- app_assoc in Hinv'. exact Hinv'.
     + intros E. injection E as <- <-. exists []. rewrite app_nil_r. split; [constructor|].
       split; [exact Hpid|]. cbn [m_pid m_q m_pkt]. split; [exact Hsz1|]. exists (pend ++ ms1), (d ++ d1). auto.
@@ -379,13 +410,90 @@ Proof.
   rewrite Hf. reflexivity.
 Qed.
 
+Lemma mrecv_packet_idem rc a p : mrecv_packet inflate rc a (takeN (rc_mtu rc) p) = mrecv_packet inflate rc a p.
+Proof. unfold mrecv_packet. rewrite takeN_takeN, N.min_id. reflexivity. Qed.
+
+(* an uncompressed packet cut to a smaller MTU still yields nothing but its own chunks *)
+Lemma mrecv_shape_trunc c rc a w0 ms :
+  mcfg_ok c -> w0 < 2 ^ 24 -> Forall (fun m => lenN m < two32) ms ->
+  rc_misc rc = false -> PHS <= rc_mtu rc ->
+  forall d, In d (mrecv_packet inflate rc a (shape c w0 ms)) -> fst d = a /\ In (snd d) ms.
+Proof.
+  intros (Hmg & Hsx & _ & _) Hw0 Hms Hmisc Hmtu d. rewrite <- mrecv_packet_idem.
+  assert (HT : takeN (rc_mtu rc) (shape c w0 ms)
+               = le32 (mc_magic c) ++ le32 (mc_sex c) ++ le32 w0 ++ takeN (rc_mtu rc - PHS) (enc_chunks ms)).
+  { unfold shape. rewrite !app_assoc. rewrite takeN_app_ge by (rewrite !lenN_app, !lenN_le32, PHS_val in *; lia).
+    rewrite !lenN_app, !lenN_le32, PHS_val. reflexivity. }
+  rewrite HT. rewrite mrecv_header; try assumption.
+  2:{ unfold two32. change (2 ^ 24) with 16777216 in Hw0. lia. }
+  2:{ rewrite lenN_takeN. lia. }
+  destruct ((mc_magic c =? rc_magic rc) && sex_ok rc (mc_sex c)); [|intros []].
+  cbv zeta. rewrite plain_word_spec by exact Hw0. cbn [N.ltb N.compare].
+  intros Hd. apply in_map_iff in Hd as (m & <- & Hm). cbn [fst snd]. split; [reflexivity|].
+  pose proof (mparse_truncated_Forall (fun x => In x ms) ms (length (takeN (rc_mtu rc - PHS) (enc_chunks ms))) (rc_mtu rc - PHS) Hms) as HF.
+  assert (HF2 : Forall (fun x => In x ms) ms) by (apply Forall_forall; auto).
+  specialize (HF HF2). rewrite Forall_forall in HF. now apply HF.
+Qed.
+
+(* one genuine packet, as seen by a receiver whose MTU may be smaller when the packet is not compressed *)
+Lemma mini_packet_sound rc s a p m :
+  rc_misc rc = false -> PHS <= rc_mtu rc -> mr_ok s ->
+  (mc_level (mr_cfg s) = 0 \/ mc_mtu (mr_cfg s) <= rc_mtu rc) ->
+  In p (mr_packets s) -> In (a, m) (mrecv_packet inflate rc a p) -> In m (mr_msgs s).
+Proof.
+  intros Hmisc Hrmtu (Hc & Hpid & Hns & Hsm) Hcase Hsent Hin.
+  unfold mr_packets in Hsent.
+  destruct (mrun deflate (mr_cfg s) (m_init (mr_pid0 s)) (mr_ops s)) as [st pkts] eqn:E. cbn [snd] in Hsent.
+  (* whichever receiver the run is specified against, a chunk of a written packet is one of the Messages *)
+  assert (Htail : forall mss pend d ms, In ms mss -> In m ms ->
+            mr_msgs s = d ++ m_q st -> filter (mfits (mr_cfg s)) d = concat mss ++ pend -> In m (mr_msgs s)).
+  { intros mss pend d ms Hms Hm Hd Hf.
+    assert (Hin2 : In m (filter (mfits (mr_cfg s)) d)).
+    { rewrite Hf. apply in_app_iff. left. apply in_concat. exists ms. auto. }
+    apply filter_In in Hin2 as [Hin2 _]. rewrite Hd. apply in_app_iff. now left. }
+  destruct Hcase as [Hl0|Hmtu].
+  - set (rc' := mkRCfg (rc_magic rc) (rc_sex rc) (N.max (rc_mtu rc) (mc_mtu (mr_cfg s))) (rc_max_in rc) false).
+    assert (Hmtu' : mc_mtu (mr_cfg s) <= rc_mtu rc') by (cbn [rc_mtu rc']; lia).
+    destruct (mrun_spec (mr_cfg s) rc' a (mr_ops s) [] [] _ _ _ Hc eq_refl Hmtu' Hns Hsm (minv_init _ _ Hpid) E)
+      as (mss & Hw & (_ & _ & pend & d & _ & Hd & Hf)).
+    cbn [app] in Hd, Hf. unfold wires_ok in Hw.
+    assert (Hex : exists ms w0, In ms mss /\ w0 < 2 ^ 24 /\ p = shape (mr_cfg s) w0 ms).
+    { clear - Hw Hsent Hl0. induction Hw as [|w ms ws mss0 Hwm _ IHw]; [destruct Hsent|].
+      destruct Hsent as [<-|Hs].
+      - destruct (proj2 Hwm Hl0) as (w0 & H0 & H1). exists ms, w0. split; [now left|auto].
+      - destruct (IHw Hs) as (ms' & w0 & H1 & H2). exists ms', w0. split; [now right|exact H2]. }
+    destruct Hex as (ms & w0 & Hms & Hw0 & ->).
+    assert (Hsmall : Forall (fun x => lenN x < two32) ms).
+    { apply Forall_forall. intros x Hx. rewrite Forall_forall in Hsm. apply Hsm.
+      assert (Hin2 : In x (filter (mfits (mr_cfg s)) d)).
+      { rewrite Hf. apply in_app_iff. left. apply in_concat. exists ms. auto. }
+      apply filter_In in Hin2 as [Hin2 _]. unfold mr_msgs. rewrite Hd. apply in_app_iff. now left. }
+    destruct (mrecv_shape_trunc (mr_cfg s) rc a w0 ms Hc Hw0 Hsmall Hmisc Hrmtu _ Hin) as [_ Hm]. cbn [snd] in Hm.
+    eapply Htail; eassumption.
+  - destruct (mrun_spec (mr_cfg s) rc a (mr_ops s) [] [] _ _ _ Hc Hmisc Hmtu Hns Hsm (minv_init _ _ Hpid) E)
+      as (mss & Hw & (_ & _ & pend & d & _ & Hd & Hf)).
+    cbn [app] in Hd, Hf. unfold wires_ok in Hw.
+    assert (Hex : exists ms, In ms mss /\ In (a, m) (if (mc_magic (mr_cfg s) =? rc_magic rc) && sex_ok rc (mc_sex (mr_cfg s)) then map (pair a) ms else [])).
+    { clear - Hw Hsent Hin. induction Hw as [|w ms ws mss0 Hwm _ IHw]; [destruct Hsent|].
+      destruct Hsent as [<-|Hs].
+      - exists ms. split; [now left|]. now rewrite <- (proj1 Hwm).
+      - destruct (IHw Hs) as (ms' & H1 & H2). exists ms'. split; [now right|exact H2]. }
+    destruct Hex as (ms & Hms & Hm).
+    destruct ((mc_magic (mr_cfg s) =? rc_magic rc) && sex_ok rc (mc_sex (mr_cfg s))); [|destruct Hm].
+    apply in_map_iff in Hm as (m' & E' & Hm'). injection E' as ->.
+    eapply Htail; eassumption.
+Qed.
+
 (* THE PROPERTY (mini tunnel), first clause: over loss, duplication, reordering, foreign datagrams under a
    sender's address and arbitrary bytes under any other address, whatever is delivered under a sender's
-   address is one of that sender's Messages -- with or without compression, given the zlib premise. *)
+   address is one of that sender's Messages -- with or without compression, given the zlib premise.
+   A receiver with a smaller MTU (truncated datagrams) is covered for senders that do not compress; what
+   zlib makes of a truncated deflate stream is outside the premise, so compressing senders need
+   receiver MTU >= sender MTU. *)
 Theorem mini_sound :
   forall (rc : rcfg) (who : addr -> option mini_run) (net : list (addr * packet)),
     rc_misc rc = false -> PHS <= rc_mtu rc ->
-    (forall a s, who a = Some s -> mr_ok s /\ mc_mtu (mr_cfg s) <= rc_mtu rc) ->
+    (forall a s, who a = Some s -> mr_ok s /\ (mc_level (mr_cfg s) = 0 \/ mc_mtu (mr_cfg s) <= rc_mtu rc)) ->
     (forall a s p, who a = Some s -> In (a, p) net -> In p (mr_packets s) \/ foreign (rc_magic rc) p) ->
     forall a s m, who a = Some s -> In (a, m) (mrecv_all inflate rc net) -> In m (mr_msgs s).
 Proof.
@@ -402,25 +510,9 @@ Proof.
     destruct (rd32 b2) as [[cl b3]|]; [|destruct Hin].
     destruct ((mg =? rc_magic rc) && ((rc_sex rc =? 0) || negb (rc_sex rc =? sx))); [|destruct Hin].
     apply in_map_iff in Hin as (x & E & _). now injection E. }
-  subst b. destruct (Hok a s Ha) as [(Hc & Hpid & Hns & Hsm) Hmtu].
+  subst b. destruct (Hok a s Ha) as [Hsok Hcase].
   destruct (Hnet a s p Ha (or_introl eq_refl)) as [Hsent|Hfor].
-  - unfold mr_packets in Hsent.
-    destruct (mrun deflate (mr_cfg s) (m_init (mr_pid0 s)) (mr_ops s)) as [st pkts] eqn:E. cbn [snd] in Hsent.
-    destruct (mrun_spec (mr_cfg s) rc a (mr_ops s) [] [] _ _ _ Hc Hmisc Hmtu Hns Hsm (minv_init _ _ Hpid) E)
-      as (mss & Hw & (_ & _ & pend & d & _ & Hd & Hf)).
-    cbn [app] in Hd, Hf.
-    unfold wires_ok in Hw.
-    assert (Hex : exists ms, In ms mss /\ In (a, m) (if (mc_magic (mr_cfg s) =? rc_magic rc) && sex_ok rc (mc_sex (mr_cfg s)) then map (pair a) ms else [])).
-    { clear - Hw Hsent Hin. induction Hw as [|w ms ws mss0 Hwm _ IHw]; [destruct Hsent|].
-      destruct Hsent as [<-|Hs].
-      - exists ms. split; [now left|]. now rewrite <- Hwm.
-      - destruct (IHw Hs) as (ms' & H1 & H2). exists ms'. split; [now right|exact H2]. }
-    destruct Hex as (ms & Hms & Hm).
-    destruct ((mc_magic (mr_cfg s) =? rc_magic rc) && sex_ok rc (mc_sex (mr_cfg s))); [|destruct Hm].
-    apply in_map_iff in Hm as (m' & E' & Hm'). injection E' as ->.
-    assert (Hin2 : In m (filter (mfits (mr_cfg s)) d)).
-    { rewrite Hf. apply in_app_iff. left. apply in_concat. exists ms. auto. }
-    apply filter_In in Hin2 as [Hin2 _]. unfold mr_msgs. rewrite Hd. apply in_app_iff. now left.
+  - eapply mini_packet_sound; eassumption.
   - rewrite mrecv_foreign in Hin by assumption. destruct Hin.
 Qed.
 
@@ -451,7 +543,7 @@ Proof.
   exists d. split; [exact Hd|]. rewrite Hf.
   unfold wires_ok in Hw. rewrite Hmg, N.eqb_refl, Hsx in Hw. cbn [andb] in Hw.
   clear - Hw. induction Hw as [|w ms ws mss0 Hwm _ IHw]; [reflexivity|].
-  cbn [map mrecv_all concat]. rewrite Hwm, IHw, map_app. reflexivity.
+  cbn [map mrecv_all concat]. rewrite (proj1 Hwm), IHw, map_app. reflexivity.
 Qed.
 
 End WithZlib.
